@@ -157,9 +157,6 @@ def split_iter(src, sep=None, maxsplit=None):
 
     if maxsplit is not None:
         maxsplit = int(maxsplit)
-        if maxsplit == 0:
-            yield [src]
-            return
 
     if callable(sep):
         sep_func = sep
